@@ -502,20 +502,21 @@ func decodeMutants(res *ShardResult, add func(string, string)) {
 // not block.
 func realStackReopen(res *ShardResult, add func(string, string)) {
 	type dmg struct {
-		name string
-		f    func(dir string, segs []string)
+		name  string
+		f     func(dir string, segs []string)
+		codec wal.Codec // the refused Open uses this codec (the directory itself is intact)
 	}
 	dmgs := []dmg{
-		{"badly named x.wal", func(dir string, segs []string) { os.WriteFile(filepath.Join(dir, "x.wal"), []byte("junk"), 0o644) }},
-		{"sealed segment removed", func(dir string, segs []string) { os.Remove(filepath.Join(dir, segs[0])) }},
-		{"sealed segment truncated to 10 bytes", func(dir string, segs []string) { os.Truncate(filepath.Join(dir, segs[0]), 10) }},
-		{"sealed segment carries another header", func(dir string, segs []string) {
+		{name: "badly named x.wal", f: func(dir string, segs []string) { os.WriteFile(filepath.Join(dir, "x.wal"), []byte("junk"), 0o644) }},
+		{name: "sealed segment removed", f: func(dir string, segs []string) { os.Remove(filepath.Join(dir, segs[0])) }},
+		{name: "sealed segment truncated to 10 bytes", f: func(dir string, segs []string) { os.Truncate(filepath.Join(dir, segs[0]), 10) }},
+		{name: "sealed segment carries another header", f: func(dir string, segs []string) {
 			b, _ := os.ReadFile(filepath.Join(dir, segs[1]))
 			f, _ := os.OpenFile(filepath.Join(dir, segs[0]), os.O_RDWR, 0)
 			f.WriteAt(b[:32], 0)
 			f.Close()
 		}},
-		{"metadata record is not JSON", func(dir string, segs []string) {
+		{name: "metadata record is not JSON", f: func(dir string, segs []string) {
 			db, err := bbolt.Open(filepath.Join(dir, "wal-meta.db"), 0o600, &bbolt.Options{Timeout: 2 * time.Second})
 			if err != nil {
 				return
@@ -523,7 +524,7 @@ func realStackReopen(res *ShardResult, add func(string, string)) {
 			db.Update(func(tx *bbolt.Tx) error { return tx.Bucket([]byte("wal-meta")).Put([]byte("m"), []byte("{not json")) })
 			db.Close()
 		}},
-		{"metadata lists an unsealed segment that is not the last", func(dir string, segs []string) {
+		{name: "metadata lists an unsealed segment that is not the last", f: func(dir string, segs []string) {
 			db, err := bbolt.Open(filepath.Join(dir, "wal-meta.db"), 0o600, &bbolt.Options{Timeout: 2 * time.Second})
 			if err != nil {
 				return
@@ -539,6 +540,7 @@ func realStackReopen(res *ShardResult, add func(string, string)) {
 			db.Close()
 		}},
 	}
+	dmgs = append(dmgs, dmg{name: "intact directory opened with another codec (must be refused)", f: func(string, []string) {}, codec: &idCodec{id: 77777}})
 	for _, d := range dmgs {
 		res.Counts["evaluations"]++
 		res.Counts["real_stack_reopen_cases"]++
@@ -571,7 +573,12 @@ func realStackReopen(res *ShardResult, add func(string, string)) {
 		d.f(dir, segs)
 		first := make(chan error, 1)
 		go func() {
-			_, err := wal.Open(dir, wal.WithSegmentSize(128))
+			var err error
+			if d.codec != nil {
+				_, err = wal.Open(dir, wal.WithSegmentSize(128), wal.WithCodec(d.codec))
+			} else {
+				_, err = wal.Open(dir, wal.WithSegmentSize(128))
+			}
 			first <- err
 		}()
 		var err1 error
